@@ -655,8 +655,101 @@ class ExprMixin:
     def ev_ListComp(self, e, st, exc):
         if self.spec_mode:
             raise Unsupported("list comprehension in spec")
+        r = self.listcomp_of_contract_call(e, st, exc)
+        if r is not None:
+            return r
         self.note("list comprehension abstracted at L%d" % self.relline)
         return [(st, self.opaque("listcomp_L%d" % self.relline))]
+
+    def listcomp_of_contract_call(self, e, st, exc):
+        """[f(g(x)) for x in xs] where f has a contract (calls directive) returning an object and the argument
+        expression is pure: the result is a fresh list L with len(L) == len(xs) and, for every position k, f's
+        postcondition for the arguments at k with result L[k]; f's frame is havocked once, each declared exception of
+        f is a possible outcome; when f promises a new object (clause text 'not was_allocated(result)') the results
+        are pairwise distinct (the k-th call starts after the j-th has returned its object)."""
+        if len(e.generators) != 1:
+            return None
+        gen = e.generators[0]
+        if gen.ifs or gen.is_async or not isinstance(gen.target, ast.Name) or not isinstance(e.elt, ast.Call) or e.elt.keywords:
+            return None
+        directive = self.contract.calls.get(ast.unparse(e.elt.func))
+        if directive not in C.CONTRACTS:
+            return None
+        con = C.CONTRACTS[directive]
+        rty = parse_type(con.returns) if con.returns else TNONE
+        if rty.kind != "ref":
+            return None
+        out = []
+        for s, xs in self.ev(gen.iter, st, exc):
+            if xs.ty.kind != "list" or xs.ty.args[0].kind == "unknown":
+                return None
+            n = smt.Len(xs.ts[0])
+            L = self.ctx.fresh("lc_L%d" % self.relline, smt.seq(INT))
+            s.assume(smt.Eq(smt.Len(L), n))
+            self.qcount += 1
+            kn = "k!lc%d" % self.qcount
+            kq = T(kn, INT)
+            # arguments at position kq, evaluated purely
+            inner = s.copy()
+            inner.env = dict(s.env)
+            inner.env[gen.target.id] = SV(xs.ty.args[0], [smt.At(c, kq) for c in xs.ts])
+            mark = len(inner.pc)
+            self.spec_mode += 1
+            try:
+                args = [self.ev1(a, inner) for a in e.elt.args]
+            finally:
+                self.spec_mode -= 1
+            pos = list(args)
+            if isinstance(e.elt.func, ast.Name) and list(con.types)[:1] == ["cls"]:
+                pos = [s.env[e.elt.func.id] if e.elt.func.id in s.env else self.cls_sv(e.elt.func.id)] + pos
+            penv = self.bind_params(con, pos, {}, inner)
+            old = s.copy()
+            old.env = dict(penv)
+            old.env.update(self.ghost_env(s))
+            if con.requires:
+                raise Unsupported("list comprehension over a callee with preconditions")
+            # exceptional outcomes (any iteration may raise)
+            for ename, posts in con.raises.items():
+                bad = s.copy()
+                self.havoc_modifies(con, bad, penv)
+                base_name, excluded = ename.split("!")[0], ename.split("!")[1:]
+                if base_name in ("*", "BaseException", "Exception") or base_name not in self.bases:
+                    ex = self.exc_symbolic(bad, "Exception", "callee")
+                    for x in excluded:
+                        if x in self.bases:
+                            bad.assume(smt.Not(self.issub_term(ex.cls_term, x)))
+                else:
+                    ex = Exc(ename)
+                if not bad.infeasible():
+                    exc.append(Outcome("raise", bad, ex))
+            s.calls += 1
+            self.havoc_modifies(con, s, penv)
+            res = SV(rty, [smt.At(L, kq)])
+            # library-model facts produced while evaluating the arguments mention constants that would have to depend on
+            # the position: they are dropped (the library functions stay uninterpreted inside the quantified statement)
+            facts = [smt.Gt(smt.At(L, kq), smt.Int(0))]
+            new_objects = False
+            for name, expr in con.ensures.items():
+                if name in con.not_assumed:
+                    continue
+                if "was_allocated(result)" in expr.replace(" ", "").replace("notwas", "not was") or "not was_allocated(result)" in expr:
+                    new_objects = True
+                facts.append(self.clause_term(expr, penv, s, old=old, result=res))
+            if new_objects:
+                # pairwise distinct results: stated through a numbering function private to this comprehension
+                # (ord(L[k]) == k for all k  <=>  L is injective), which keeps the hypothesis single-variable
+                ordf = self.ctx.fresh("lc_ord", INT).s
+                self.ctx.fun(ordf + "_f", [INT], INT)
+                facts.append(smt.Eq(smt.app(ordf + "_f", INT, smt.At(L, kq)), kq))
+                for other in s.allocated:
+                    facts.append(smt.Not(smt.Eq(smt.At(L, kq), other)))
+            body = smt.Implies(smt.And(smt.Le(smt.Int(0), kq), smt.Lt(kq, n)), smt.And(*facts))
+            q = smt.Forall([(kn, INT)], body)
+            self.ctx.qreg[q.s] = (kn, body.s, INT)
+            s.assume(q)
+            self.note("list comprehension at L%d modelled through the contract of %s" % (self.relline, con.id))
+            out.append((s, SV(ListT(Ref()), [L])))
+        return out
 
     def ev_Starred(self, e, st, exc):
         raise Unsupported("starred expression")
